@@ -16,6 +16,7 @@ package main
 // are then recomputed without the dead edges. Every walker asks deadEdge().
 
 import (
+	"go/token"
 	"os"
 
 	"golang.org/x/tools/go/ssa"
@@ -95,6 +96,18 @@ func (w *World) edgeContradicted(a *absint, at ssa.Instruction, asserted []Fact,
 			if _, isIface := v.Type().Underlying().(interface{ NumMethods() int }); !isIface || true {
 				if a.definitelyNonNil(rv) || w.presentEntryOfNonNilTable(rv, known) || w.rangeValueOfNonNilMap(rv) || w.lookupOfRangedKey(rv) {
 					return true
+				}
+			}
+		}
+		// x % k != 0 claimed of a value that is always a multiple of k
+		if f.Op == "==" && !f.Truth {
+			for _, pair := range [][2]ssa.Value{{f.X, f.Y}, {f.Y, f.X}} {
+				if z, isZ := constInt(pair[1]); isZ && z == 0 {
+					if bo, isBO := stripIntConv(pair[0]).(*ssa.BinOp); isBO && bo.Op == token.REM {
+						if k, isK := constInt(bo.Y); isK && w.multipleOf(bo.X, k, 0, map[ssa.Value]bool{}) {
+							return true
+						}
+					}
 				}
 			}
 		}
@@ -201,4 +214,112 @@ func (w *World) liveBlock(b *ssa.BasicBlock) bool {
 		w.liveMemo[fn] = m
 	}
 	return m[b]
+}
+
+// multipleOf: the integer value is always a multiple of k (k ≥ 2): constants, products with a
+// multiple, sums/differences of multiples, phis of multiples, results of module functions all
+// of whose returns are multiples (nearestPaddedValueLength), conversions.
+func (w *World) multipleOf(v ssa.Value, k int64, depth int, seen map[ssa.Value]bool) bool {
+	if depth > 10 || k < 2 {
+		return false
+	}
+	if seen[v] {
+		return true // loop-carried: decided by the other operands
+	}
+	seen[v] = true
+	defer delete(seen, v)
+	v = w.resolveLoad(v)
+	if c, ok := constInt(v); ok {
+		return c%k == 0
+	}
+	switch x := v.(type) {
+	case *ssa.Convert:
+		return isIntType(x.X.Type()) && w.multipleOf(x.X, k, depth+1, seen)
+	case *ssa.ChangeType:
+		return w.multipleOf(x.X, k, depth+1, seen)
+	case *ssa.BinOp:
+		switch x.Op {
+		case token.MUL:
+			return w.multipleOf(x.X, k, depth+1, seen) || w.multipleOf(x.Y, k, depth+1, seen)
+		case token.ADD, token.SUB:
+			if w.multipleOf(x.X, k, depth+1, seen) && w.multipleOf(x.Y, k, depth+1, seen) {
+				return true
+			}
+			// rounding: a - a%k, a + (K - a%k) with K a multiple of k
+			isRemOf := func(r, a ssa.Value) bool {
+				bo, ok := stripIntConv(w.resolveLoad(r)).(*ssa.BinOp)
+				if !ok || bo.Op != token.REM {
+					return false
+				}
+				kk, isK := constInt(bo.Y)
+				return isK && kk == k && (bo.X == a || w.sameKey(bo.X, a))
+			}
+			if x.Op == token.SUB && isRemOf(x.Y, x.X) {
+				return true
+			}
+			if x.Op == token.ADD {
+				for _, pr := range [][2]ssa.Value{{x.X, x.Y}, {x.Y, x.X}} {
+					if sb, ok := stripIntConv(w.resolveLoad(pr[1])).(*ssa.BinOp); ok && sb.Op == token.SUB {
+						if kk, isK := constInt(sb.X); isK && kk%k == 0 && isRemOf(sb.Y, pr[0]) {
+							return true
+						}
+					}
+				}
+			}
+			return false
+		case token.SHL:
+			if s, ok := constInt(x.Y); ok && s > 0 && s < 32 && (int64(1)<<uint(s))%k == 0 {
+				return true
+			}
+		case token.AND_NOT:
+			// x &^ (k-1) for k a power of two
+			if m, ok := constInt(x.Y); ok && k&(k-1) == 0 && m&(k-1) == k-1 {
+				return true
+			}
+		}
+	case *ssa.Phi:
+		for i, e := range x.Edges {
+			if w.multipleOf(e, k, depth+1, seen) {
+				continue
+			}
+			// selected on an edge where e % k == 0 was observed
+			okEdge := false
+			pred := x.Block().Preds[i]
+			var fs []Fact
+			if len(pred.Instrs) > 0 {
+				fs = append(fs, w.factsAt(pred.Instrs[0])...)
+			}
+			fs = append(fs, edgeFacts(pred, x.Block())...)
+			for _, f := range fs {
+				if f.Op != "==" || !f.Truth {
+					continue
+				}
+				for _, pair := range [][2]ssa.Value{{f.X, f.Y}, {f.Y, f.X}} {
+					if z, isZ := constInt(pair[1]); isZ && z == 0 {
+						if bo, isBO := stripIntConv(pair[0]).(*ssa.BinOp); isBO && bo.Op == token.REM {
+							if kk, isK := constInt(bo.Y); isK && kk == k && (bo.X == e || w.sameKey(bo.X, e)) {
+								okEdge = true
+							}
+						}
+					}
+				}
+			}
+			if !okEdge {
+				return false
+			}
+		}
+		return true
+	case *ssa.Call:
+		h := x.Call.StaticCallee()
+		if h == nil || !w.IsMod[h] || len(h.Blocks) == 0 || h.Signature.Results().Len() != 1 {
+			return false
+		}
+		for _, r := range returnsOf(h) {
+			if !w.multipleOf(r.Results[0], k, depth+1, seen) {
+				return false
+			}
+		}
+		return true
+	}
+	return false
 }
